@@ -236,6 +236,28 @@ def cseg_layout(repo, col):
     col.add(rule + ".tables", enc, "bytearray(gx * gy * gz * 8)", okt,
             "" if okt else "block header table is not 8 bytes per block",
             undecided=not okt)
+    # 11. table re-use is per channel: stored offsets are relative to the
+    #     channel's own buffer
+    edefs = local_defs(enc.node)
+    reuse = [n for n in walk_local(enc.node) if isinstance(n, ast.Compare)
+             and isinstance(n.ops[0], ast.In) and "lut" in norm(n.left)]
+    if reuse:
+        dname = norm(reuse[0].comparators[0])
+        local_new = any(isinstance(d.value, ast.Dict) and not d.value.keys
+                        for d in edefs.get(dname, []) if d.value is not None)
+        is_param = dname in enc.params
+        col.add(rule + ".lut-scope", enc, "table re-use map `%s` is created "
+                "per channel" % dname, local_new and not is_param,
+                "" if local_new and not is_param else
+                "the map of already stored lookup tables is shared across "
+                "channels, but its offsets are relative to one channel's "
+                "buffer: a later channel re-uses a meaningless offset")
+        buf_local = any(isinstance(d.value, ast.Call) and
+                        call_name(d.value) == "bytearray"
+                        for d in edefs.get("buf", []) if d.value is not None)
+        col.add(rule + ".lut-scope", enc, "channel buffer is created per "
+                "channel", buf_local, "" if buf_local else "channel buffer is "
+                "not local to the channel encoder", undecided=not buf_local)
     # 10. lookup table entries are stored in the chunk's dtype
     okl = "lookup_table.astype(block.dtype).tobytes()" in norm(enc.node)
     col.add(rule + ".tables", enc, "lookup_table.astype(block.dtype).tobytes()",
